@@ -1,0 +1,88 @@
+use crate::bitvec::*;
+use crate::engine::*;
+
+/// Computes the null map of `lhs AND rhs` / `lhs OR rhs` under three-valued logic:
+/// the result is known where both operands are known, and where one operand alone determines it
+/// (a FALSE operand of AND, a TRUE operand of OR). Wherever the result is known, `lhs & rhs` / `lhs | rhs` computed
+/// on the data bytes is its value, whatever the data under a NULL slot is.
+/// `rhs == None` stands for an operand that is NULL in every row.
+#[derive(Debug)]
+pub struct KleeneNullMap {
+    pub lhs: BufferRef<u8>,
+    pub lhs_nullable: bool,
+    pub rhs: Option<BufferRef<u8>>,
+    pub rhs_nullable: bool,
+    pub is_or: bool,
+    pub output: BufferRef<u8>,
+}
+
+impl<'a> VecOperator<'a> for KleeneNullMap {
+    fn execute(&mut self, _streaming: bool, scratchpad: &mut Scratchpad<'a>) -> Result<(), QueryError> {
+        let lhs = scratchpad.get(self.lhs);
+        let lhs_present = if self.lhs_nullable {
+            Some(scratchpad.get_null_map(self.lhs.any().cast_nullable_any()))
+        } else {
+            None
+        };
+        let rhs = self.rhs.map(|rhs| scratchpad.get(rhs));
+        let rhs_present = match self.rhs {
+            Some(rhs) if self.rhs_nullable => Some(scratchpad.get_null_map(rhs.any().cast_nullable_any())),
+            _ => None,
+        };
+        let mut output = scratchpad.get_mut(self.output);
+        // The buffer is reused for every chunk when the stage is streamed: rewrite all of it.
+        for out in output.iter_mut() {
+            *out = 0;
+        }
+        let len = match &rhs {
+            Some(rhs) => lhs.len().min(rhs.len()),
+            None => lhs.len(),
+        };
+        for i in 0..len {
+            let l_known = lhs_present.as_ref().is_none_or(|p| p.is_set(i));
+            let l = lhs[i] > 0;
+            let (r_known, r) = match &rhs {
+                Some(rhs) => (rhs_present.as_ref().is_none_or(|p| p.is_set(i)), rhs[i] > 0),
+                None => (false, false),
+            };
+            let known = if self.is_or {
+                (l_known && r_known) || (l_known && l) || (r_known && r)
+            } else {
+                (l_known && r_known) || (l_known && !l) || (r_known && !r)
+            };
+            if known {
+                output.set(i);
+            }
+        }
+        Ok(())
+    }
+
+    fn init(&mut self, total_count: usize, batch_size: usize, scratchpad: &mut Scratchpad<'a>) {
+        let output = vec![0u8; batch_size.min(total_count).div_ceil(8)];
+        scratchpad.set(self.output, output);
+    }
+
+    fn inputs(&self) -> Vec<BufferRef<Any>> {
+        match self.rhs {
+            Some(rhs) => vec![self.lhs.any(), rhs.any()],
+            None => vec![self.lhs.any()],
+        }
+    }
+    fn inputs_mut(&mut self) -> Vec<&mut usize> {
+        match self.rhs {
+            Some(ref mut rhs) => vec![&mut self.lhs.i, &mut rhs.i],
+            None => vec![&mut self.lhs.i],
+        }
+    }
+    fn outputs(&self) -> Vec<BufferRef<Any>> { vec![self.output.any()] }
+    fn can_stream_input(&self, _: usize) -> bool { true }
+    fn can_stream_output(&self, _: usize) -> bool { true }
+    fn allocates(&self) -> bool { true }
+    fn display_op(&self, _: bool) -> String {
+        let op = if self.is_or { "OR" } else { "AND" };
+        match self.rhs {
+            Some(rhs) => format!("null_map({} {} {})", self.lhs, op, rhs),
+            None => format!("null_map({} {} NULL)", self.lhs, op),
+        }
+    }
+}
